@@ -1,6 +1,7 @@
 package utils
 
 import (
+	"sync"
 	"sync/atomic"
 	"time"
 )
@@ -29,6 +30,7 @@ var (
 const length = int64(64)
 
 type Yeast struct {
+	mu   sync.Mutex
 	seed atomic.Int64
 	prev atomic.Value
 }
@@ -59,6 +61,11 @@ func (y *Yeast) Decode(str string) int64 {
 }
 
 func (y *Yeast) Yeast() string {
+	// comparing with, and replacing, the previous timestamp must be one step:
+	// two callers in the same millisecond would otherwise both return it bare
+	y.mu.Lock()
+	defer y.mu.Unlock()
+
 	now := y.Encode(time.Now().UnixMilli())
 
 	prev, _ := y.prev.Load().(string)
